@@ -4,14 +4,23 @@ import cybuild
 
 TITLE = "Python <-> C/C++ value conversions round-trip or raise"
 EXTRACTS = ["Convert"]
-RULE = ("per (c_string_type/c_string_encoding configuration, C type from a catalogue of scalars, std::string, vector, "
+RULE = ("(A) per (c_string_type/c_string_encoding configuration, C type from a catalogue of scalars, std::string, vector, "
         "std::list, set, unordered_set, map, unordered_map, pair, struct, union, C array, ctuple and nestings thereof): "
         "generated canonical values (empty containers, boundary ints, NUL and non-ASCII text), coercible variants "
         "(other iterables, generators, duplicates, bool, bytearray), and every canonical value with an invalid element "
         "(wrong type, None, out-of-range int, undecodable/unencodable text, non-iterable, wrong container kind) "
         "substituted at every position, missing/extra/duplicated struct and union keys, arrays/pairs/ctuples of every "
         "wrong length; passed through `cdef T x = o; return x` compiled as C++ by the compiler under test; distinct by "
-        "(configuration, type, input value)")
+        "(configuration, type, input value).  (B) text part: per configuration (every c_string_type x c_string_encoding "
+        "class the compiler accepts: '' / ascii / utf8 / another 8-bit codec, plus the alias spellings through the real "
+        "directive parser and the Limited-API text of the helper) one module with every entry point of the str/bytes/"
+        "bytearray <-> char*, unsigned char*, std::string conversions (def argument, local assignment, cdef return value, "
+        "strlen / size() of the converted argument, struct member from dict, vector[string]); inputs: one code point of "
+        "every storage class boundary (ASCII 0x01/0x7f, Latin-1 0x80/0xff, BMP 0x100/0x7ff/0x800/0xd7ff/0xe000/0xffff, "
+        "astral 0x10000/0x10ffff, lone surrogates 0xd800/0xdbff/0xdc00/0xdfff, NUL) alone and first/middle/last in an "
+        "ASCII and in non-ASCII backgrounds, long strings, and byte strings with every kind of ill-formed UTF-8 sequence at "
+        "every position; every entry point is called on the SAME object (cached UTF-8 form); distinct by "
+        "(configuration, entry point, input)")
 EXPLANATION = ("theorems, for ALL element converter pairs obeying the element law `toX x = Ok v -> fromX v = Ok x` and all "
                "values: C->Python->C is the identity for vector/std::list (order kept), set/unordered_set and "
                "map/unordered_map (order-free duplicate-free representation), pair, C array; lifted by induction on the "
@@ -22,13 +31,21 @@ EXPLANATION = ("theorems, for ALL element converter pairs obeying the element la
                "any other length raises; struct: ValueError whenever a member key is missing, only member keys matter "
                "(refutation of 'wrong keys raise' for extra keys); std::string is length based and NUL safe, char* is exact "
                "on NUL-free strings and cut at the first NUL otherwise (refuted); map from a non-dict raises AttributeError "
-               "(refuted). partial: the text codec law (decode then encode = identity) is a hypothesis of the str-typed "
-               "string theorems (proved for ASCII, CPython's UTF-8 codec only compared on every run); NOT proved: "
+               "(refuted). text: the model of __Pyx_PyUnicode_AsStringAndSize (PEP 393 ascii flag / kind as functions of the "
+               "largest code point; full-API, Limited-API and repaired Limited-API texts) is proved equal to CPython's "
+               "s.encode(E) with *length = number of bytes for ALL strings (ascii: accepted iff all code points < 128, "
+               "bytes = code points; utf8: the RFC 3629 table of C18, rejected iff a lone surrogate occurs; always "
+               "UnicodeEncodeError), decode(encode s) = s and encode(decode b) = b for all strings / byte strings (strict "
+               "decoder), so str -> std::string -> str is the identity or UnicodeEncodeError, char* the same on NUL-free "
+               "text, and the nested round trip no longer assumes the codec law; the Limited-API text as it is gives "
+               "SystemError for a lone surrogate under ascii (refuted, finding). partial: NOT proved: "
                "well-formedness of every from_py result / Python->C->Python idempotence (tested only); scalar ints are the "
                "range check that C05 proves equal to the real helper; doubles are opaque bit patterns; unions, error "
                "messages and the evaluation order inside to_py are only tested.")
 TRUSTED = ["g++/libstdc++ as a conforming C++ implementation (std::set/map insert keeps the first of equal keys)",
-           "CPython's UTF-8 / ASCII / Latin-1 codecs (the model has its own strict UTF-8 codec, compared on every run)",
+           "CPython's UTF-8 / ASCII / Latin-1 codecs and PyUnicode_AsUTF8AndSize (modelled by the RFC 3629 table and the "
+           "strict decoder of C18, compared with CPython on every run); PEP 393 kind / ascii flag (read back through ctypes "
+           "on every str input and compared with the model)",
            "C05 for the scalar int helpers (modelled here as the range check)",
            "Python == on values produced by to_py at one C type is structural equality (no -0.0/NaN among set elements or map keys)"]
 ASSUMPTIONS = ["LP64", "builtin containers only (no user-defined iterables whose __iter__/__len__ raise or lie)"]
@@ -611,7 +628,6 @@ def model_exc_matches(mtok, got):
     if "exc" not in got:
         return False
     e, msg = got["exc"], got.get("msg", "")
-    if mtok == "!UnicodeError": return e in ("UnicodeEncodeError", "UnicodeDecodeError")
     if mtok == "!IndexTooMany": return e == "IndexError" and msg.startswith("too many values")
     if mtok == "!IndexNotEnough": return e == "IndexError" and msg.startswith("not enough values")
     return mtok == "!" + e
@@ -686,6 +702,8 @@ def run(ctx):
             mods.append((mn, cfg, types))
             specs.append(dict(name=mn, source=gen_source(types), workdir=ctx.workdir, cplus=True,
                               cflags=["-O0"], directives={"c_string_type": st, "c_string_encoding": en}))
+    tmods = text_modules(quick)
+    specs += [text_spec(ctx, tm) for tm in tmods]
     built = cybuild.build_many(specs, jobs=min(len(specs), 12))
     for (so, err), sp in zip(built, specs):
         if err is not None:
@@ -744,10 +762,11 @@ def run(ctx):
             kl = classify(name, t, kind, vin, got, cfg)
             dbg["fail"].setdefault(kl, []).append([cfg[0], fn, vin, got, exp])
             ctx.fail(kl, inp, got, exp, note="model says %s" % m)
+    ctx.extra["unmodelled_cases"] = n_unmodelled
+    run_text(ctx, tmods, model, dbg)
     if os.environ.get("C33_DEBUG"):
         with open(os.environ["C33_DEBUG"], "w") as f:
             json.dump(dbg, f)
-    ctx.extra["unmodelled_cases"] = n_unmodelled
     ctx.note("configurations: %s; %d types; %d cases; %d outside the model" %
              (",".join(c[0] for c in configs), len(CATALOGUE), len(allcases), n_unmodelled))
 
@@ -814,9 +833,408 @@ def charp_oracle(cfg, vin, got):
 
 def replay(ctx, obj):
     inp = obj["input"]
+    if "text_config" in inp:
+        return replay_text(ctx, inp, obj)
     cfg = [c for c in CONFIGS if c[0] == inp["config"]][0]
     types = [(n, t) for n, t in CATALOGUE if "rt_" + n == inp["func"]]
     cybuild.build("c33_replay", gen_source(types), ctx.workdir, cplus=True, cflags=["-O0"],
                   directives={"c_string_type": cfg[1], "c_string_encoding": cfg[2]})
     r = cybuild.run_script(WORKER, ctx.workdir, stdin_obj=[["c33_replay", [[inp["func"], inp["value"]]]]])
+    print("replayed:", json.dumps(inp), "->", r["json"], "expected", obj.get("expected"))
+
+
+# ================================================================== (B) text conversions
+# __Pyx_PyObject_AsStringAndSize / __Pyx_PyUnicode_AsStringAndSize / __Pyx_PyObject_FromString[AndSize]
+# under every c_string_type / c_string_encoding class, through every entry point.
+FX_LIMNULL = os.environ.get("C33_FX_LIMNULL", "0")     # "1" once proposed_fixes/C33-limited_api_ascii_surrogate_systemerror.diff is applied
+LIMITED = ["CYTHON_LIMITED_API=1", "Py_LIMITED_API=0x030c0000"]
+
+# key, c_string_type, c_string_encoding (as written), normalised (type, enc), model tokens, how the directive is
+# given ("opt": compiler_directives, already normalised; "hdr": `# cython:` comment = the real directive parser), api
+TEXT_QUICK = [
+    ("ba", "bytes", "ascii", ("bytes", "ascii"), "b a", "opt", "0"),
+    ("ua", "str", "ascii", ("str", "ascii"), "u a", "opt", "0"),
+    ("u8", "str", "utf8", ("str", "utf8"), "u 8", "opt", "0"),
+    ("a8", "bytearray", "utf8", ("bytearray", "utf8"), "a 8", "opt", "0"),
+    ("lua", "str", "ascii", ("str", "ascii"), "u a", "opt", "L"),
+]
+TEXT_THOROUGH = [
+    ("bn", "bytes", "", ("bytes", ""), "b n", "opt", "0"),
+    ("an", "bytearray", "", ("bytearray", ""), "a n", "opt", "0"),
+    ("b8", "bytes", "utf8", ("bytes", "utf8"), "b 8", "opt", "0"),
+    ("aa", "bytearray", "ascii", ("bytearray", "ascii"), "a a", "opt", "0"),
+    ("ul", "str", "latin1", ("str", "latin1"), "u l", "opt", "0"),
+    ("bl", "bytes", "latin1", ("bytes", "latin1"), "b l", "opt", "0"),
+    ("al", "bytearray", "iso8859-15", ("bytearray", "iso8859-15"), "a l", "opt", "0"),
+    ("h1", "unicode", "default", ("str", "utf8"), "u 8", "hdr", "0"),
+    ("h2", "str", "US-ASCII", ("str", "ascii"), "u a", "hdr", "0"),
+    ("h3", "bytes", "UTF-8", ("bytes", "utf8"), "b 8", "hdr", "0"),
+    ("h4", "bytearray", "utF8", ("bytearray", "utf8"), "a 8", "hdr", "0"),
+    ("lb8", "bytes", "utf8", ("bytes", "utf8"), "b 8", "opt", "L"),
+    ("lba", "bytes", "ascii", ("bytes", "ascii"), "b a", "opt", "L"),
+]
+
+# entry point -> (model command kind, wrapper)   wrapper: how the input is packed for the call
+TEXT_ENTRIES = [
+    ("arg_ccharp", "charp"), ("arg_charp", "charp"), ("arg_ucharp", "charp"), ("var_ccharp", "charp"),
+    ("ret_ccharp", "charp"), ("arg_ccharp_len", "cplen"), ("arg_string", "str"), ("var_string", "str"),
+    ("arg_string_len", "ssize"), ("struct_rt", "struct"), ("vec_string", "vec"),
+]
+TEXT_BODY = r"""
+from libc.string cimport strlen
+from libcpp.string cimport string
+from libcpp.vector cimport vector
+
+cdef struct Named:
+    const char* name
+    int n
+
+cdef const char* c_ret(object o) except NULL:
+    return o
+
+def arg_ccharp(const char* s): return s
+def arg_charp(char* s): return s
+def arg_ucharp(const unsigned char* s): return s
+def arg_ccharp_len(const char* s): return strlen(s)
+def var_ccharp(o):
+    cdef const char* p = o
+    return p
+def ret_ccharp(o): return c_ret(o)
+def arg_string(string s): return s
+def arg_string_len(string s): return s.size()
+def var_string(o):
+    cdef string s = o
+    return s
+def struct_rt(d):
+    cdef Named v = d
+    return v
+def vec_string(o):
+    cdef vector[string] v = o
+    return v
+"""
+
+
+def text_modules(quick):
+    return TEXT_QUICK if quick else TEXT_QUICK + TEXT_THOROUGH
+
+
+def text_spec(ctx, tm):
+    key, st, en, _, _, via, api = tm
+    head = "# distutils: language=c++\n#\n"
+    dirs = None
+    if via == "hdr":
+        head += "# cython: language_level=3, c_string_type=%s, c_string_encoding=%s\n" % (st, en)
+    else:
+        dirs = {"c_string_type": st, "c_string_encoding": en}
+    return dict(name="c33t_" + key, source=head + TEXT_BODY, workdir=ctx.workdir, cplus=True, cflags=["-O0"],
+                directives=dirs, macros=(LIMITED if api == "L" else None))
+
+
+def text_entries(tm):
+    if tm[6] == "L":      # the API variant matters to the leaf conversions only
+        return [e for e in TEXT_ENTRIES if e[1] not in ("struct", "vec")]
+    return TEXT_ENTRIES
+
+# code points at the boundaries of every storage class / encoder branch
+CP_CLASSES = [
+    ("nul", [0]),
+    ("ascii", [0x01, 0x41, 0x7f]),
+    ("latin1", [0x80, 0xa0, 0xe9, 0xff]),
+    ("bmp", [0x100, 0x7ff, 0x800, 0x20ac, 0xd7ff, 0xe000, 0xffff]),
+    ("astral", [0x10000, 0x1f600, 0x10ffff]),
+    ("surrogate", [0xd800, 0xdbff, 0xdc00, 0xdfff]),
+]
+BACKGROUNDS = [("a", [0x61, 0x62]), ("l", [0xe9, 0xbf]), ("b", [0x20ac, 0x100]), ("s", [0x1f600, 0x10000])]
+# ill-formed / boundary UTF-8 sequences (and the well-formed neighbours)
+BYTE_SEQS = [
+    b"\x80", b"\xbf", b"\xc0\x80", b"\xc1\xbf", b"\xc2", b"\xc2\x80", b"\xdf\xbf", b"\xc2\x41",
+    b"\xe0\x80\x80", b"\xe0\x9f\xbf", b"\xe0\xa0\x80", b"\xed\x9f\xbf", b"\xed\xa0\x80", b"\xed\xbf\xbf",
+    b"\xee\x80\x80", b"\xef\xbf\xbf", b"\xe2\x82", b"\xe2\x82\xac", b"\xf0\x80\x80\x80", b"\xf0\x8f\xbf\xbf",
+    b"\xf0\x90\x80\x80", b"\xf0\x9f\x98", b"\xf0\x9f\x98\x80", b"\xf4\x8f\xbf\xbf", b"\xf4\x90\x80\x80",
+    b"\xf5\x80\x80\x80", b"\xf8\x88\x80\x80\x80", b"\xfe", b"\xff", b"\x7f", b"\x01", b"\x00", b"\xe9", b"\xa0",
+]
+
+
+def cp_class(cps):
+    """storage class of a str input (from the input alone): what decides the branch taken"""
+    if any(0xd800 <= c <= 0xdfff for c in cps): top = "surrogate"
+    elif not cps or max(cps) < 0x80: top = "ascii"
+    elif max(cps) < 0x100: top = "latin1"
+    elif max(cps) < 0x10000: top = "bmp"
+    else: top = "astral"
+    return top + ("+nul" if 0 in cps else "")
+
+
+def place(c, bg, pos):
+    if pos == "only": return c
+    if pos == "first": return c + bg
+    if pos == "last": return bg + c
+    return bg[:1] + c + bg[1:]
+
+
+def text_inputs(ctx, quick):
+    """[(stratum, tagged value)] -- the same list for every configuration"""
+    out, seen = [], set()
+
+    def add(stratum, v):
+        k = json.dumps(v)
+        if k not in seen:
+            seen.add(k); out.append((stratum, v))
+    rng = ctx.rng
+    for cname, cps in CP_CLASSES:
+        for c in cps:
+            for bname, bg in BACKGROUNDS:
+                if quick and bname != "a" and c not in (0, 0x7f, 0x80, 0xff, 0x100, 0xffff, 0x10000, 0xdc00):
+                    continue
+                for pos in ("only", "first", "middle", "last"):
+                    if pos == "only" and bname != "a":
+                        continue
+                    add("str/%s/%s/bg-%s" % (cname, pos, bname), ["S", place([c], bg, pos)])
+    add("str/empty", ["S", []])
+    add("str/ascii/all", ["S", list(range(1, 128))])
+    add("str/latin1/all", ["S", list(range(1, 256))])
+    for n in (40, 300):
+        add("str/long/ascii", ["S", [0x78] * n])
+        add("str/long/latin1-last", ["S", [0x78] * n + [0xe9]])
+        add("str/long/latin1-first", ["S", [0xff] + [0x78] * n])
+        add("str/long/bmp", ["S", [0x20ac] * n])
+        add("str/long/surrogate-last", ["S", [0x78] * n + [0xdfff]])
+    add("str/surrogate/pair", ["S", [0xd800, 0xdc00]])
+    add("str/surrogate/pair-rev", ["S", [0x61, 0xdc00, 0xd800]])
+    add("str/nul/latin1", ["S", [0xe9, 0, 0xe9]])
+    add("str/nul/only-nuls", ["S", [0, 0]])
+    pool = [c for _, cps in CP_CLASSES for c in cps]
+    for i in range(12 if quick else 300):
+        n = rng.choice([1, 2, 3, 5, 9])
+        cl = rng.choice(CP_CLASSES[:5 if rng.random() < 0.7 else 6])[1]
+        cps = [rng.choice(cl + [0x61, 0x7a]) if rng.random() < 0.8 else rng.choice(pool) for _ in range(n)]
+        if not quick and rng.random() < 0.3:
+            cps = [rng.randrange(0x110000) for _ in range(n)]
+        add("str/random", ["S", cps])
+    for bs in BYTE_SEQS:
+        for pos in ("only", "first", "middle", "last"):
+            if quick and pos in ("first",) and bs not in (b"\x00", b"\xff", b"\xc2"):
+                continue
+            b = place(bs, b"ab", pos)
+            add("bytes/%s" % pos, ["Y", b.hex()])
+            if not quick or pos == "middle":
+                add("bytearray/%s" % pos, ["A", b.hex()])
+    for b in (b"", b"abc", b"x" * 300, bytes(range(1, 256)), b"\x00\x00", "h\xe9€\U0001f600".encode("utf8") * 20):
+        add("bytes/pool", ["Y", b.hex()]); add("bytearray/pool", ["A", b.hex()])
+    for bad in (NONE, eI(5), eF(1.5), ["L", []], OBJ, ["T", [eS("a")]], ["B", True]):
+        add("wrongtype", bad)
+    return out
+
+TEXT_WORKER = r"""
+import sys, json, struct, importlib, ctypes
+def dec(v):
+    k = v[0]
+    if k == "N": return None
+    if k == "O": return object()
+    if k == "B": return bool(v[1])
+    if k == "I": return int(v[1])
+    if k == "F": return struct.unpack("<d", struct.pack("<Q", v[1]))[0]
+    if k == "Y": return bytes.fromhex(v[1])
+    if k == "A": return bytearray.fromhex(v[1])
+    if k == "S": return "".join(map(chr, v[1]))
+    if k == "L": return [dec(x) for x in v[1]]
+    if k == "T": return tuple(dec(x) for x in v[1])
+    raise ValueError(v)
+def enc(o):
+    if o is None: return ["N"]
+    if o is True or o is False: return ["B", o]
+    if type(o) is int: return ["I", str(o)]
+    if type(o) is float: return ["F", struct.unpack("<Q", struct.pack("<d", o))[0]]
+    if type(o) is bytes: return ["Y", o.hex()]
+    if type(o) is bytearray: return ["A", o.hex()]
+    if type(o) is str: return ["S", [ord(c) for c in o]]
+    if type(o) is list: return ["L", [enc(x) for x in o]]
+    if type(o) is tuple: return ["T", [enc(x) for x in o]]
+    if type(o) is dict: return ["D", [[enc(a), enc(b)] for a, b in o.items()]]
+    return ["O"]
+def state(o):
+    # PEP 393 header of CPython 3.12: ... hash | state{interned:2, kind:3, compact:1, ascii:1}
+    if type(o) is not str or sys.version_info[:2] != (3, 12): return None
+    v = ctypes.c_uint.from_address(id(o) + 32).value
+    return [(v >> 2) & 7, (v >> 6) & 1]
+req = json.load(sys.stdin)
+out = []
+for modname, entries, values in req:
+    mod = importlib.import_module(modname)
+    rows = []
+    for v in values:
+        o = dec(v)                 # ONE object for all entry points: later calls meet the cached UTF-8 form
+        row = {"state": state(o), "res": []}
+        for fn, kind in entries:
+            a = o
+            if kind == "struct": a = {"name": o, "n": 7}
+            elif kind == "vec": a = [b"ok", o, o]
+            try:
+                row["res"].append({"ok": enc(getattr(mod, fn)(a))})
+            except BaseException as e:
+                row["res"].append({"exc": type(e).__name__, "msg": str(e)[:160],
+                                   "mro": [c.__name__ for c in type(e).__mro__]})
+        rows.append(row)
+    out.append(rows)
+print(json.dumps(out))
+"""
+
+PY_CODEC = {"ascii": "ascii", "utf8": "utf-8", "latin1": "latin-1", "iso8859-15": "iso8859-15"}
+
+
+class Raises(Exception):
+    def __init__(self, name): self.name = name
+
+
+def text_from_py(norm, v):
+    """CPython-level meaning of Python -> char buffer: bytes, or Raises(exception type)"""
+    en = norm[1]
+    if v[0] in "YA":
+        return bytes.fromhex(v[1])
+    if v[0] == "S":
+        if en not in ("ascii", "utf8"):
+            raise Raises("TypeError")             # no implicit encoding
+        try:
+            return "".join(map(chr, v[1])).encode(PY_CODEC[en], "strict")
+        except UnicodeEncodeError:
+            raise Raises("UnicodeEncodeError")
+    raise Raises("TypeError")
+
+
+def text_to_py(norm, raw):
+    st, en = norm
+    if st == "bytes": return eY(raw)
+    if st == "bytearray": return eA(raw)
+    try:
+        return eS(raw.decode(PY_CODEC[en], "strict"))
+    except UnicodeDecodeError:
+        raise Raises("UnicodeDecodeError")
+
+
+def text_expect(norm, kind, v, cut):
+    """expected tagged result of an entry point; cut: char* values end at the first NUL (strlen)"""
+    def charp(raw):
+        return raw.split(b"\x00")[0] if cut else raw
+    if kind == "charp":
+        return text_to_py(norm, charp(text_from_py(norm, v)))
+    if kind == "cplen":
+        return eI(len(text_from_py(norm, v).split(b"\x00")[0]))      # strlen IS the length up to the first NUL
+    if kind == "str":
+        return text_to_py(norm, text_from_py(norm, v))
+    if kind == "ssize":
+        return eI(len(text_from_py(norm, v)))
+    if kind == "struct":
+        return ["D", [[eS("name"), text_to_py(norm, charp(text_from_py(norm, v)))], [eS("n"), eI(7)]]]
+    if kind == "vec":
+        ok = text_to_py(norm, b"ok")
+        raw = text_from_py(norm, v)
+        return ["L", [ok, text_to_py(norm, raw), text_to_py(norm, raw)]]
+    raise ValueError(kind)
+
+
+def text_verdict(norm, kind, v, got, cut):
+    """(ok?, expected description)"""
+    try:
+        exp = text_expect(norm, kind, v, cut)
+    except Raises as r:
+        return (got.get("exc") == r.name), "raises " + r.name
+    return ("ok" in got and canon(got["ok"]) == canon(exp)), exp
+
+
+def text_class(tm, kind, fn, v, got):
+    key, norm, api = tm[0], tm[3], tm[6]
+    if v[0] == "S":
+        what = cp_class(v[1])
+    elif v[0] in "YA":
+        what = "bytes" + ("+nul" if "00" in [v[1][i:i + 2] for i in range(0, len(v[1]), 2)] else "")
+    else:
+        what = "nonstring"
+    if api == "L" and norm[1] == "ascii" and what.startswith("surrogate") and FX_LIMNULL != "1":
+        return "limited_api_ascii_surrogate_systemerror"
+    return "text_%s_%s_%s_%s" % (norm[1] or "noenc", kind, what, "wrong_value" if "ok" in got else got.get("exc"))
+
+
+def text_query(tm, kind, v):
+    api = "0" if tm[6] != "L" else ("2" if FX_LIMNULL == "1" else "1")
+    cmd = {"charp": "charpl", "cplen": "cplen", "str": "strl", "ssize": "ssize"}.get(kind)
+    if cmd:
+        return "%s %s %s %s" % (cmd, api, tm[4], tok(v))
+    if kind == "struct":
+        return "rt %s St2 S110,97,109,101 p S110 i32s D2 S110,97,109,101 %s S110 I7" % (tm[4], tok(v))
+    return "rt %s V s L3 Y6f6b %s %s" % (tm[4], tok(v), tok(v))
+
+
+def run_text(ctx, tmods, model, dbg):
+    import time
+    quick = ctx.tier == "quick"
+    t0 = time.time()
+    inputs = text_inputs(ctx, quick)
+    vals = [v for _, v in inputs]
+    req = [["c33t_" + tm[0], text_entries(tm), vals] for tm in tmods]
+    r = cybuild.run_script(TEXT_WORKER, ctx.workdir, stdin_obj=req, timeout=1500, name="driver_text.py")
+    if r["json"] is None:
+        ctx.corr_break("text-worker", "c33 text worker", (r["err"] or "")[-1500:] + " rc=%s" % r["rc"], "JSON results")
+        return
+    # model: storage class of every str input + every (configuration, entry kind, input)
+    qs, qi = [], {}
+
+    def q(line):
+        if line not in qi:
+            qi[line] = len(qs); qs.append(line)
+        return qi[line]
+    kq = {json.dumps(v): q("kind " + tok(v)) for v in vals if v[0] == "S"}
+    plan = []
+    for tm, rows in zip(tmods, r["json"]):
+        for (stratum, v), row in zip(inputs, rows):
+            for (fn, kind), got in zip(text_entries(tm), row["res"]):
+                plan.append((tm, stratum, v, fn, kind, got, q(text_query(tm, kind, v))))
+    ans = model.batch(qs)
+    # PEP 393 tie: the model's kind / ascii flag vs the real object header
+    nstate = 0
+    for (stratum, v), row in zip(inputs, r["json"][0]):
+        if v[0] == "S" and row["state"] is not None:
+            nstate += 1
+            m = ans[kq[json.dumps(v)]]
+            if m != "%d %d" % tuple(row["state"]):
+                ctx.corr_break("text:pep393-state", {"value": v}, row["state"], m)
+    nfail = 0
+    for tm, stratum, v, fn, kind, got, qidx in plan:
+        key, norm = tm[0], tm[3]
+        inp = {"text_config": key, "func": fn, "kind": kind, "value": v}
+        ctx.case("text/%s/%s/%s" % (key, kind, stratum), inp, sig=("text", key, fn, json.dumps(v)))
+        m = ans[qidx]
+        # --- implementation vs model (exact value, exact exception type)
+        if m.startswith("!ERR") or m == "!Unmodelled":
+            ctx.corr_break("text:model-error", inp, got, m)
+        elif m.startswith("!"):
+            if got.get("exc") != m[1:]:
+                dbg["corr"].setdefault("text/" + kind, []).append([qs[qidx], m, got])
+                ctx.corr_break("text:" + kind, inp, got, m)
+        else:
+            if "ok" not in got or not model_value_eq(untok(m.split()), got["ok"]):
+                dbg["corr"].setdefault("text/" + kind, []).append([qs[qidx], m, got])
+                ctx.corr_break("text:" + kind, inp, got, m)
+        # --- implementation vs CPython's codecs (value, length, exception type)
+        ok, exp = text_verdict(norm, kind, v, got, cut=False)
+        if not ok:
+            nfail += 1
+            if kind in ("charp", "struct") and text_verdict(norm, kind, v, got, cut=True)[0]:
+                kl = "charptr_embedded_nul_truncated"       # exactly the strlen cut, nothing else wrong
+            else:
+                kl = text_class(tm, kind, fn, v, got)
+            dbg["fail"].setdefault(kl, []).append([key, fn, v, got, exp])
+            ctx.fail(kl, inp, got, exp, note="model says %s" % m)
+    ctx.extra["text_configurations"] = [{"key": tm[0], "c_string_type": tm[1], "c_string_encoding": tm[2],
+                                         "directive_via": tm[5], "api": "limited" if tm[6] == "L" else "full"} for tm in tmods]
+    ctx.extra["text_storage_classes"] = sorted({cp_class(v[1]) for v in vals if v[0] == "S"})
+    ctx.note("text part: %d configurations x %d inputs x entry points = %d cases (%d str inputs with PEP 393 state tie), "
+             "%d model queries, %.1f s" % (len(tmods), len(vals), len(plan), nstate, len(qs), time.time() - t0))
+
+
+def replay_text(ctx, inp, obj):
+    tm = [t for t in TEXT_QUICK + TEXT_THOROUGH if t[0] == inp["text_config"]][0]
+    cybuild.build(**text_spec(ctx, tm))
+    ents = [e for e in TEXT_ENTRIES if e[0] == inp["func"]]
+    r = cybuild.run_script(TEXT_WORKER, ctx.workdir, stdin_obj=[["c33t_" + tm[0], ents, [inp["value"]]]],
+                           name="driver_text.py")
     print("replayed:", json.dumps(inp), "->", r["json"], "expected", obj.get("expected"))
